@@ -9,7 +9,7 @@ def run(rep, facts, tier):
         "allowed sinks are allocation value closures. A variable-allocating or constraint-emitting effect that is control-dependent on a tainted condition (other than "
         "mere availability of a value) or that receives a tainted term outside a closure is a violation. INPUT: allocation as public input is exactly one Fq instance "
         "variable = vartime_compress_to_field(value) = ToConstraintField. The third clause of C15 (proofs with the pinned key files verify) is NOT applicable to static analysis.")
-    rep.rules += ["TAINT", "INPUT"]
+    rep.rules += ["TAINT", "INPUT", "SHAPE (the CountConstraints reporter synthesises like the Groth16 generator)"]
     rep.trusted += ["ark-r1cs-std gadgets emit value-independent constraints", "summary table"]
     rep.assumptions += ["NOT APPLICABLE: 'proofs made with tests/test_vectors/*_pk.bin verify under *_vk.param' - binary artefacts and Groth16 arithmetic, no source-level shape to compare",
                         "availability dependence (f()? / value()? aborting synthesis with AssignmentMissing) yields no circuit, hence no different circuit: allowed and listed"]
@@ -19,6 +19,7 @@ def run(rep, facts, tier):
     cfg = Cfg(facts["R"])
     GD.taint_rule(rep, cfg)
     GD.public_input(rep, cfg)
+    GD.shape_reporter(rep, cfg)
     # a proof exists for an input only if the honest witness satisfies the circuit: the prover hint must be the native answer and the hint block
     # must admit it in every row an honest prover can be in (C13's HINT and honest GUARD rows) - the statically visible precondition of clause 3
     from . import c13
